@@ -199,6 +199,17 @@ impl Subject for IpqSubject {
     }
 }
 
+/// Applies an operation; a panic of the implementation is a mismatch like any other.
+fn apply_caught<S: Subject>(s: &mut S, op: &S::Op) -> Result<String, String> {
+    match std::panic::catch_unwind(std::panic::AssertUnwindSafe(|| s.apply(op))) {
+        Ok(r) => r,
+        Err(p) => {
+            let m = p.downcast_ref::<&str>().map(|x| x.to_string()).or_else(|| p.downcast_ref::<String>().cloned()).unwrap_or_else(|| "?".into());
+            Err(format!("the implementation panicked: {}", m))
+        }
+    }
+}
+
 /// Deterministic *regime* sequences: fill the keyed queue with n entries
 /// (n around every power of two up to 4096), drain it in one of three ways,
 /// refill it with m entries, then present every key ever issued: a stale key
@@ -218,7 +229,7 @@ pub fn check_ipq_regimes() -> Outcome {
                 let mut hist: Vec<String> = vec![format!("n={} drain={} m={}", n, drain, m)];
                 let mut step = |s: &mut IpqSubject, op: IpqOp, hist: &mut Vec<String>| -> Result<(), String> {
                     transitions += 1;
-                    match s.apply(&op) {
+                    match apply_caught(s, &op) {
                         Ok(_) => Ok(()),
                         Err(e) => {
                             hist.push(format!("{:?}", op));
@@ -313,7 +324,7 @@ pub fn check_ipq_regimes() -> Outcome {
                 let mut failed = None;
                 for op in &ops {
                     transitions += 1;
-                    if let Err(e) = s.apply(op) {
+                    if let Err(e) = apply_caught(&mut s, op) {
                         hist.push(format!("{:?} (operation #{} of the churn sequence)", op, transitions));
                         failed = Some(e);
                         break;
@@ -346,7 +357,7 @@ pub fn check_ipq_regimes() -> Outcome {
             let mut failed = None;
             for op in &ops {
                 transitions += 1;
-                if let Err(e) = s.apply(op) {
+                if let Err(e) = apply_caught(&mut s, op) {
                     hist.push(format!("{:?} (operation #{})", op, transitions));
                     failed = Some(e);
                     break;
@@ -432,7 +443,7 @@ pub fn check_ipq_regimes() -> Outcome {
                     let mut failed = None;
                     for op in &ops {
                         transitions += 1;
-                        if let Err(e) = s.apply(op) {
+                        if let Err(e) = apply_caught(&mut s, op) {
                             hist.push(format!("{:?}", op));
                             failed = Some(e);
                             break;
@@ -490,7 +501,7 @@ pub fn check_pq_regimes() -> Outcome {
                 }
                 for op in ops {
                     transitions += 1;
-                    if let Err(e) = s.apply(&op) {
+                    if let Err(e) = apply_caught(&mut s, &op) {
                         hist.push(format!("{:?}", op));
                         return Err(e);
                     }
